@@ -58,6 +58,7 @@ type Engine struct {
 	ufApps    []ufApp
 	failSeq   int
 	pending   []pendingAssert
+	implied   map[string]bool
 	tracking  bool
 	changed   Value // disjunction of "this tracked store changed a value"
 	realSeq   int // > 0: realisation run for the failure with this ordinal
@@ -205,6 +206,10 @@ func (e *Engine) branch(c Value) bool {
 	case bool:
 		return c
 	case *Term:
+		// a condition already decided on this path stays decided (the path condition only grows)
+		if d, ok := e.implied[c.S]; ok {
+			return d
+		}
 		if e.pos < len(e.dec) {
 			d := e.dec[e.pos]
 			e.pos++
@@ -213,6 +218,7 @@ func (e *Engine) branch(c Value) bool {
 			} else {
 				e.solver.send("(assert (not " + c.S + "))")
 			}
+			e.implied[c.S] = d
 			return d
 		}
 		if len(e.dec) >= maxDecisions {
@@ -229,14 +235,17 @@ func (e *Engine) branch(c Value) bool {
 			e.dec = append(e.dec, true)
 			e.pos++
 			e.solver.send("(assert " + c.S + ")")
+			e.implied[c.S] = true
 			return true
 		case ft:
 			e.dec = append(e.dec, true)
 			e.pos++
+			e.implied[c.S] = true
 			return true
 		case ff:
 			e.dec = append(e.dec, false)
 			e.pos++
+			e.implied[c.S] = false
 			return false
 		}
 		panic(Infeasible{})
